@@ -69,6 +69,8 @@ class World:
             return 1
         if self.mode == "nulls":
             return self.rng.choice([0, 1, 3])
+        if self.mode == "full3":
+            return 3
         return 2
 
     def pick_runtime(self, t) -> str:
